@@ -75,6 +75,14 @@ func quiesceOrBusy(h *hlog, maxWait time.Duration, markers ...string) (ok bool, 
 		if allBlocked() && n == last {
 			stable++
 			if stable >= 2 {
+				if quiescePatience > 0 {
+					time.Sleep(quiescePatience)
+					if !(allBlocked() && h.len() == n) {
+						stable = 0
+						last = h.len()
+						continue
+					}
+				}
 				return true, false
 			}
 		} else {
